@@ -14,6 +14,7 @@ import KojenVerif.Model.Engine
 import KojenVerif.Model.EngineSpec
 import KojenVerif.Model.Vpp
 import KojenVerif.Model.Uml
+import KojenVerif.Model.UmlInc
 import KojenVerif.Lemmas.EngineWF
 import KojenVerif.Lemmas.EngineNestedWF
 import KojenVerif.Lemmas.EngineProto
@@ -713,6 +714,9 @@ def handle (j : Json) : Except String Json := do
       pure (Json.mkObj [("r", Json.arr #[jOpt r.to_, jOpt r.from_, jOpt r.guard, jOpt r.effect])])
     | "parseGuardName" => pure (Json.mkObj [("r", jOpt (Vpp.parseGuardName (← getStr j "blob")))])
     | o => throw s!"vppfn {o}"
+  | "umlinc" => do
+    -- the include block of one header: holder namespace, the sorted set of types it needs complete, the diagram's class names
+    pure (Json.mkObj [("text", jStr (Uml.includes (← getBool j "folders") (← getStr j "ns") (← getStrs j "types") (← getStrs j "names")))])
   | "uml" => do
     let templates ← getStrs j "templates"
     let folders ← getBool j "folders"
